@@ -26,6 +26,7 @@ func init() {
 	zzsv.Register("ZZ_C17_Arity", ZZ_C17_Arity)
 	zzsv.Register("ZZ_C17_Time", ZZ_C17_Time)
 	zzsv.Register("ZZ_C17_ReplaceMatch", ZZ_C17_ReplaceMatch)
+	zzsv.Register("ZZ_C17_TimeConcrete", ZZ_C17_TimeConcrete)
 }
 
 var zzNumFloats = []float64{0.5, -2.5, 10, 100.25, 9, 1e21}
@@ -617,4 +618,54 @@ func ZZ_C17_ReplaceMatch(sv *zzsv.T) {
 		}
 	}
 	sv.Assert("C17.match", err == nil && zzSame(sv, out, zBool(want)))
+}
+
+// ZZ_C17_TimeConcrete: the time decomposition on concrete instants and
+// zones chosen for their irregularities - offsets that are not whole hours
+// or whole minutes (Monrovia before 1972, local mean time before 1900,
+// Kathmandu, Lord Howe), instants before 1970, daylight-saving changes,
+// the last second of a day and of a year: exactly the host library's answer.
+func ZZ_C17_TimeConcrete(sv *zzsv.T) {
+	fns := []string{"hour", "minute", "seconds", "day", "month", "year", "weekday"}
+	fn := fns[sv.Choice("fn", len(fns))]
+	zones := []string{"", "UTC", "Africa/Monrovia", "America/New_York", "Asia/Kathmandu", "Australia/Lord_Howe", "Europe/Amsterdam", "Asia/Kolkata"}
+	tz := zones[sv.Choice("tz", len(zones))]
+	instants := []int64{0, 59, 63072010, 31535999, 86399, -1, -86400, -2208988800, -3000000000, -1000000000, 1711846799, 1711846800, 4102444799, 951782400}
+	v := instants[sv.Choice("instant", len(instants))]
+	sv.Setenv("TZ", tz)
+	e := New("return " + fn + "(v);")
+	sv.Note("script", e.Script)
+	sv.Note("TZ", tz)
+	e.SetVariable("v", &object.Integer{Value: v})
+	sv.Assume(e.Prepare() == nil)
+	out, err := e.Execute(nil)
+	zzDescribe(sv, "result", out, err)
+	name := tz
+	if name == "" {
+		name = "UTC"
+	}
+	ts := time.Unix(v, 0)
+	if loc, lerr := time.LoadLocation(name); lerr == nil {
+		ts = ts.In(loc)
+	}
+	hr, mi, se := ts.Clock()
+	yr, mo, dy := ts.Date()
+	var want zv
+	switch fn {
+	case "hour":
+		want = zInt(int64(hr))
+	case "minute":
+		want = zInt(int64(mi))
+	case "seconds":
+		want = zInt(int64(se))
+	case "day":
+		want = zInt(int64(dy))
+	case "month":
+		want = zInt(int64(mo))
+	case "year":
+		want = zInt(int64(yr))
+	default:
+		want = zStr(ts.Weekday().String())
+	}
+	sv.Assert("C17.timeconcrete", err == nil && zzSame(sv, out, want))
 }
